@@ -23,6 +23,7 @@ class Scen(object):
     self.hints = []
     self.info = {}
     self.splits = []
+    self.seeds = []           # extra terms to instantiate axiom schemata on
     self.mono = []
     self.cong = []
     self.replay = None        # {'class': name, 'kwargs': {k: python value | z3 expr}, ...}
@@ -77,7 +78,7 @@ def run_call(ip, f, args=(), kwargs=None):
 def eval_exclude(expr, vars_):
   env = {"And": z3.And, "Or": z3.Or, "Not": z3.Not, "Implies": z3.Implies, "If": z3.If,
          "true": z3.BoolVal(True), "false": z3.BoolVal(False),
-         "ipow2": I.IPOW2, "pow2": I.POW2}
+         "ipow2": I.IPOW2, "pow2": I.POW2, "eps": zreal(1e-07)}
   env.update(vars_)
   return eval(expr, {"__builtins__": {}}, env)  # our own committed file, not repo input
 
@@ -233,7 +234,8 @@ def _run_clause(case, cname, per_path, timeout, known_entries, res):
         excl.append((ent, eval_exclude(ent["exclude"], vars_)))
       except Exception as e:  # pylint: disable=broad-except
         out["reason"] += " known-finding exclude failed to evaluate: %s" % e
-    ax = VC.all_axioms(base + [x for _, x in excl], hints)
+    seeds = [t == t for t in (getattr(s, 'seeds', []) if s is not None else [])]
+    ax = VC.all_axioms(base + [x for _, x in excl] + seeds, hints)
     for (cx, ca, cb) in (getattr(s, "cong", []) if s is not None else []):
       # congruence of multiplication: a == b  =>  x*a == x*b   (valid in any ring)
       ax.append(z3.Implies(ca == cb, cx * ca == cx * cb))
